@@ -11,6 +11,7 @@ import (
 	"encoding/json"
 	"errors"
 	"fmt"
+	"log/slog"
 	"strings"
 
 	"github.com/shiwano/errdef"
@@ -509,11 +510,35 @@ func (w *world) causeSlice(ps []*int) []error {
 
 func (w *world) run(p []PStmt) (panics []string) {
 	for i, s := range p {
+		nd, ne := len(w.defs), len(w.errs)
 		if pv := w.exec(s); pv != nil {
 			panics = append(panics, fmt.Sprintf("stmt %d (%s): %v", i, s.T, pv))
 		}
+		// every new factory and error is rendered once straight away (results discarded): what the
+		// checks observe at the end must not depend on what was rendered, or derived, in between
+		for _, d := range w.defs[nd:] {
+			if dd, ok := d.(errdef.Definition); ok {
+				touch(dd.Fields())
+				touch(dd)
+			}
+		}
+		for _, e := range w.errs[ne:] {
+			if e != nil {
+				touch(e)
+			}
+		}
 	}
 	return
+}
+
+// touch renders a value through encoding/json, fmt and slog and discards the results.
+func touch(v any) {
+	defer func() { _ = recover() }()
+	_, _ = json.Marshal(v)
+	_ = fmt.Sprintf("%+v", v)
+	if lv, ok := v.(slog.LogValuer); ok {
+		_ = lv.LogValue().Resolve()
+	}
 }
 
 func (w *world) coqProg() string { return "[" + strings.Join(w.coq, ";\n  ") + "]" }
@@ -605,6 +630,7 @@ func genProg(r *Rng, cfg p1Cfg) []PStmt {
 	n := 3 + r.Intn(cfg.MaxStmts-2)
 	var p []PStmt
 	ndefs, nctx, nerrs := 0, 0, 0
+	lastJoin, lastJoinF, firstRec := -1, 0, -1
 	optIdxP := func(n int) *int {
 		if n == 0 || r.Chance(1, 4) {
 			return nil
@@ -660,9 +686,36 @@ func genProg(r *Rng, cfg p1Cfg) []PStmt {
 			p = append(p, PStmt{T: "wrapf", F: r.Intn(ndefs), C: optIdxP(nerrs), Format: f, Args: a})
 			nerrs++
 		case x == 11 || x == 12:
-			p = append(p, PStmt{T: "join", F: r.Intn(ndefs), Cs: errList()})
+			if lastJoin >= 0 && r.Chance(1, 3) {
+				// the accumulator idiom: the same factory joins its own earlier join, alone
+				cs := [][]*int{{ip(lastJoin)}, {nil, ip(lastJoin)}, {ip(lastJoin), nil}}[r.Intn(3)]
+				p = append(p, PStmt{T: "join", F: lastJoinF, Cs: cs})
+				nerrs++
+				break
+			}
+			st := PStmt{T: "join", F: r.Intn(ndefs), Cs: errList()}
+			nn := 0
+			for _, c := range st.Cs {
+				if c != nil {
+					nn++
+				}
+			}
+			if nn >= 2 {
+				lastJoin, lastJoinF = nerrs, st.F
+			}
+			p = append(p, st)
 			nerrs++
 		case x == 13 && cfg.Recover:
+			if firstRec >= 0 && r.Chance(1, 3) {
+				// re-panic: the panic value is an earlier Recover's result or an error made after it
+				// (which may wrap it)
+				p = append(p, PStmt{T: "recover", F: r.Intn(ndefs), Cb: &PCb{T: "panicErr", E: ip(firstRec + r.Intn(nerrs-firstRec))}})
+				nerrs++
+				break
+			}
+			if firstRec < 0 {
+				firstRec = nerrs
+			}
 			p = append(p, PStmt{T: "recover", F: r.Intn(ndefs), Cb: genCb(r, ndefs, nerrs, 3)})
 			nerrs++
 		case x == 14 && nerrs > 0:
